@@ -47,6 +47,33 @@ def gen_case(rng, depth):
     return c
 
 
+def systematic_cases(rng):
+    """every axis order of 2-D and 3-D arrays x static/dynamic shape x scalar/string items x input form"""
+    import itertools
+    out = []
+    prep = {"kind": "numpy", "cap": 512, "al": 8, "poison": 0xA5, "pre": [["alloc", 24], ["alloc", 40], ["free", 0]]}
+    for nd, dims in ((2, [2, 3]), (3, [2, 3, 2])):
+        for order in itertools.permutations(range(nd)):
+            for dyn in (False, True):
+                for item in ({"k": "scalar", "name": "Int16"}, {"k": "string"}):
+                    shape = [None if dyn else d for d in dims]
+                    t = {"k": "array", "item": item, "shape": shape, "order": list(order)}
+                    n = 1
+                    for d in dims: n *= d
+                    if item["k"] == "scalar":
+                        items = [[(7 * i + 1) & 255, i & 255] for i in range(n)]
+                    else:
+                        items = [{"s": list(("s%d" % i).encode() * (1 + i % 3)), "size": G.slot(len(("s%d" % i).encode() * (1 + i % 3)) + 9)} for i in range(n)]
+                    v = {"shape": list(dims), "items": items}
+                    for form in (("py", "np", "xobj") if item["k"] == "scalar" else ("py", "xobj")):
+                        for wrap in (False, True):
+                            tt, vv = (t, v) if not wrap else ({"k": "struct", "name": G.struct_name([["k", "x"], ["a", t]]), "fields": [["k", {"k": "scalar", "name": "Int64"}], ["a", t]]},
+                                                               {"f": [[5, 0, 0, 0, 0, 0, 0, 0], v]})
+                            out.append({"type": tt, "value": vv, "form": form, "prep": dict(prep, kind=rng.choice(["numpy", "bytearray"])),
+                                        "placement": ["default"], "xobj_other_buffer": rng.random() < 0.5})
+    return out
+
+
 def case_term(c, r):
     t = c["type"]; v = c["value"]
     ext = r["after"][r["off"]: r["off"] + (r["size"] or 0)]
@@ -180,7 +207,9 @@ def run(ctx):
     cdir = os.path.join(VERIF, "corpus", "layout")
     corpus = [json.load(open(os.path.join(cdir, f))) for f in sorted(os.listdir(cdir))] if os.path.isdir(cdir) else []
     cases += corpus
-    while len(cases) < bud["n"] + len(corpus):
+    cases += systematic_cases(rng)
+    nfixed = len(cases)
+    while len(cases) < bud["n"] + nfixed:
         cases.append(gen_case(rng, bud["depth"]))
     # explicit placement needs the size of the image: computed by the model's documented size = slot-rounded.. use a dry run
     # (the harness reserves max(expected,8) bytes; expected is computed below from a first default-placement run)
